@@ -18,6 +18,16 @@ CHECKS = {
         "objects, times 0..4, depth <=5; order inside one time point is not compared.",
         "DESIGN.md section 4 C01",
     ),
+    "C20": (
+        "exhaustive enumeration of call sequences (depth 2) over an object family + stateless enumeration of all interleavings of iteration clients",
+        "Every ordered pair (and every repetition) of read-only entry points is executed on every object of an enumerated family; "
+        "the argument's full identity-free fingerprint must stay the initial one, repeated results must be identical and the result "
+        "of g after f must equal g on a fresh object. All interleavings of 2-3 iteration clients over one container are enumerated "
+        "by a cooperative scheduler that owns every iter()/next() step.",
+        "Trusted: mc/fingerprint.py (reads instance dictionaries and the point array only); caches/cursors named in DESIGN 2.5 are "
+        "excluded from the fingerprint and covered by the g-after-f clause; objects: 1 + 12 single-feature + feature-pair scores, 3 performances.",
+        "DESIGN.md section 4 C20",
+    ),
 }
 
 NOT_YET = "check not built yet in this revision of /verif (planned as bounded exhaustive enumeration, DESIGN.md section 4)"
